@@ -98,6 +98,13 @@ def check(ctx):
         ks = sorted(rng.randrange(0, 250) for _ in range(n))
         key = rng.choice(ks) if ks and rng.random() < 0.5 else rng.randrange(0, 256)
         lines.append("Bsearch %d %d %s %d" % (rng.randrange(1, 33), div, fmt(ks), key))
+    # array lengths and element sizes around and beyond the 8-bit boundary (300, 1000 elements; elements of 255..300 bytes)
+    for n, size in ((255, 8), (256, 4), (257, 12), (300, 16), (1000, 8), (40, 255), (40, 256), (33, 300)):
+        ks = [rng.randrange(rng.choice([3, 50, 256])) for _ in range(n)]
+        lines.append("Qsort %d %d %s" % (size, rng.choice([1, 2]), fmt(ks)))
+        sk = sorted(rng.randrange(0, 250) for _ in range(n))
+        for key in (sk[0], sk[-1], sk[n // 2], 251, rng.randrange(0, 256)):
+            lines.append("Bsearch %d 1 %s %d" % (size, fmt(sk), key))
     script = []
     for i, ln in enumerate(lines):
         if i % 400 == 0: script.append("R %d" % rng.randrange(1, 10 ** 6))
